@@ -426,6 +426,20 @@ func CreateDB(dbName string) error {
 }
 
 func (rs *RelationService) CreateTable(r *Relation, tableName string) error {
+	if err := rs.createTable(r, tableName); err != nil {
+		return err
+	}
+	return rs.fs.flushPages()
+}
+
+// createTable makes the catalog changes of CREATE TABLE. Like every other
+// statement that changes pages it holds the store's shared lock meanwhile, so
+// that the background flush (which takes the lock exclusively) cannot write a
+// half-made table to disk.
+func (rs *RelationService) createTable(r *Relation, tableName string) error {
+	rs.fs.lockShared()
+	defer rs.fs.unlockShared()
+
 	_, err := rs.getRelationFileOffset(tableName)
 	if err != ErrTableNotExist {
 		return ErrTableAlreadyExist
@@ -438,11 +452,7 @@ func (rs *RelationService) CreateTable(r *Relation, tableName string) error {
 	if err := rs.insertPageTable(pg, tableName); err != nil {
 		return err
 	}
-	if err := rs.insertSchemaTable(r, tableName); err != nil {
-		return err
-	}
-
-	return rs.fs.flushPages()
+	return rs.insertSchemaTable(r, tableName)
 }
 
 func (rs *RelationService) createPage() (*btreeNode, error) {
